@@ -44,6 +44,48 @@ def corpus():
         yield ([4, 5], (g3, p, o, KEY), 6, 'corpus')
 
 
+
+_DIRS = {0: (-1, 0), 1: (1, 0), 2: (0, -1), 3: (0, 1)}
+# heading (F B L R) x relative direction (F B L R) -> absolute direction index, read off the geometry of the code itself
+def _abs_dir(o, d):
+    from gym_gridverse.geometry import Orientation, Position
+    v = Position.from_orientation(Orientation(o) * Orientation(d))
+    return (v.y, v.x)
+
+
+def wrap_cases(ctx, n, focus=None):
+    """edge poses whose attempted target / faced cell lies beyond the TOP or LEFT edge (python index -1 wraps to the opposite edge), with
+    an interactive object planted exactly on the wrapped cell (door of every status, box, key, obstacle, telepod, exit, wall, floor) and
+    a matching or mismatching held item; also bottom / right (IndexError side).  Catches out-of-grid guards replaced by try/except."""
+    r = ctx.rng
+    T = gen.TY
+    for _ in range(n):
+        h, w = r.randint(2, 5), r.randint(2, 5)
+        types = [T[t] for t in ('Floor', 'Floor', 'Wall', 'Door', 'Key', 'Box', 'Exit', 'MovingObstacle', 'Telepod')]
+        g = gen.rand_grid(r, h, w, types=types, floor_bias=0.6)
+        o = r.randrange(4)
+        act = r.choice([0, 1, 2, 3, 6, 6, 7, 7])
+        rel = act if act < 4 else 0                       # MOVE_FORWARD/BACKWARD/LEFT/RIGHT = relative F/B/L/R; ACTUATE / PICK_N_DROP look at the front
+        dy, dx = _abs_dir(o, rel)
+        # a pose from which the target leaves the grid through the side the direction points to
+        y = 0 if dy < 0 else (h - 1 if dy > 0 else r.randrange(h))
+        x = 0 if dx < 0 else (w - 1 if dx > 0 else r.randrange(w))
+        ty, tx = (y + dy) % h, (x + dx) % w               # the cell python's wrapped index would reach
+        col = r.choice(gen.COLORS)
+        planted = r.choice([(T['Door'], r.randrange(3), col, None), (T['Door'], r.randrange(3), col, None), (T['Box'], 0, 0, gen.rand_obj(r, depth=0)),
+                            (T['Key'], 0, col, None), (T['MovingObstacle'], 0, 0, None), (T['Telepod'], 0, col, None), (T['Exit'], 0, 0, None),
+                            gen.FLOOR, gen.FLOOR, gen.WALL])
+        g = gen.set_cell(g, (ty, tx), planted)
+        if (ty, tx) != (y, x) and r.random() < 0.7:
+            g = gen.set_cell(g, (y, x), gen.FLOOR)
+        held = r.choice([gen.NONE, (T['Key'], 0, col, None), (T['Key'], 0, col, None), (T['Key'], 0, r.choice(gen.COLORS), None), (T['Telepod'], 0, col, None)])
+        if focus is not None and r.random() < 0.7:
+            names = [r.choice(focus)]
+        else:
+            names = [{0: 0, 1: 0, 2: 0, 3: 0, 6: r.choice([4, 5]), 7: 2}[act]] if r.random() < 0.7 else rand_names(r, focus)
+        yield (names, (g, (y, x), o, held), act, 'edge-wrap')
+
+
 def rand_names(r, focus=None):
     k = r.random()
     if focus is not None and k < 0.55:
@@ -129,3 +171,71 @@ def run_trees(ctx, cases, tree_oracle=None):
             d = case_dict(names, cs, act)
             d.update({'impl_outcomes': outs[:20], 'model_outcomes': mouts[:20]})
             ctx.disagreement('outcome trees differ between implementation and model', d)
+
+
+def interactive_world(r):
+    """small, dense worlds in which histories matter: corridors and rooms with doors (closed / locked / open), keys, boxes, obstacles,
+    telepods; the agent next to / facing something interactive as often as not"""
+    T = gen.TY
+    h, w = r.choice([(1, 4), (1, 5), (2, 4), (3, 3), (3, 4), (4, 4), (2, 5)])
+    col = r.choice(gen.COLORS[1:])
+    pool = [gen.FLOOR] * 5 + [(T['Door'], 1, col, None), (T['Door'], 2, col, None), (T['Door'], 0, col, None), (T['Key'], 0, col, None),
+                              (T['Box'], 0, 0, (T['Key'], 0, col, None)), (T['Box'], 0, 0, gen.FLOOR), gen.WALL, (T['MovingObstacle'], 0, 0, None),
+                              (T['Telepod'], 0, col, None), (T['Exit'], 0, 0, None)]
+    g = tuple(tuple(r.choice(pool) for _ in range(w)) for _ in range(h))
+    free = [(y, x) for y in range(h) for x in range(w) if g[y][x][0] in (T['Floor'], T['Exit'], T['Telepod']) or g[y][x] == (T['Door'], 0, col, None)]
+    if not free:
+        g = gen.set_cell(g, (0, 0), gen.FLOOR)
+        free = [(0, 0)]
+    p = r.choice(free)
+    held = r.choice([gen.NONE, gen.NONE, (T['Key'], 0, col, None), (T['Key'], 0, r.choice(gen.COLORS[1:]), None)])
+    return (g, p, r.randrange(4), held)
+
+
+def run_histories(ctx, n, step_oracle, length=(3, 10)):
+    """Dynamics are history-free: ONE python state object is carried through a sequence of steps the way GridWorld carries it (each
+    step works on a pickle copy of the previous state -- attributes cached on the objects travel along), under the full chain of all
+    seven built-in transition functions; after every step the state is compared with the model applied to the previous state's VALUE,
+    and `step_oracle(ctx, names, cs_before, act, kind, val, log, tape)` is evaluated.  Actions are biased to bump / actuate / move
+    patterns (bump a closed door, open it, walk through; pick a key, unlock, drop)."""
+    import pickle
+    from gym_gridverse.envs import transition_functions as tf
+    r = ctx.rng
+    names = [0, 1, 4, 5, 2, 6, 3]
+    reqs, metas = [], []
+    for _ in range(n):
+        cs = interactive_world(r)
+        s = wire.mkstate(cs)
+        hist = []
+        for _k in range(r.randint(*length)):
+            act = r.choice([0, 0, 0, 0, 6, 6, 6, 7, 7, 1, 2, 3, 4, 5])
+            before = wire.cstate(s)
+            s2 = pickle.loads(pickle.dumps(s))
+            with impl.Journal(r.randrange(1 << 30)) as j:
+                try:
+                    for nm in names:
+                        tf.transition_function_registry[impl.TNAMES[nm]](s2, impl.ACTS[act], rng=j.own)
+                    kind, val = 'ok', wire.cstate(s2)
+                except Exception as e:  # noqa: BLE001
+                    kind, val = 'err', wire.EXN_NAMES.get(wire.exn_code(e), type(e).__name__)
+            log, tape = list(j.log), list(j.tape)
+            hist.append(impl.ACTS[act].name)
+            if wire.cstate(s) != before:
+                ctx.violation('a step on a copy modified the original state', dict(case_dict(names, before, act), history=list(hist)))
+            step_oracle(ctx, names, before, act, kind, val, log, tape)
+            ctx.count('history step', impl.ACTS[act].name)
+            ctx.case(('hist', before, act, len(hist)), kind != 'ok' or val != before, None)
+            reqs.append(impl.transition_request(names, True, act, before, tape))
+            metas.append((before, act, kind, val, log, list(hist)))
+            if kind != 'ok':
+                break
+            s = s2
+    answers = ctx.model(reqs)
+    if answers is None:
+        return
+    for (before, act, kind, val, log, hist), ans in zip(metas, answers):
+        mk, mv, mlog = impl.decode_transition(ans)
+        if (mk, mv) != (kind, val) or impl.norm_log(mlog) != impl.norm_log(log):
+            d = case_dict(names, before, act)
+            d.update({'impl': [kind, val, log], 'model': [mk, mv, mlog], 'history': hist})
+            ctx.disagreement('a step after a history of other steps: implementation and model differ', d)
